@@ -160,6 +160,10 @@ def stress(ctx, seed, dur_ms, name):
                 dict(replay_base, **{"class": "concurrent-search-differs"}, detail=m, count=rep["mismatch_count"]))
     ctx.oblige("support:%s:every-concurrent-answer-equals-solitary-answer" % name, "support", rep.get("mismatch_count", 0) == 0,
                "%d mismatches over %d calls" % (rep.get("mismatch_count", 0), sum(rep["calls"].get(k, 0) for k in ("SearchUniversal", "SearchWithOptionsAndCache", "SearchWithOptionsAndMonitoring"))))
+    if rep.get("order_failures"):
+        ctx.hit("cache-op-takes-effect-after-return", rep["order_failures"][0][:400],
+                dict(replay_base, **{"class": "cache-op-takes-effect-after-return"}, detail=rep["order_failures"]))
+    ctx.oblige("support:%s:returned-operations-have-taken-effect" % name, "support", not rep.get("order_failures"), json.dumps(rep.get("order_failures")))
     if rep.get("metric_failures"):
         ctx.hit("metric-increment-lost", "metric totals differ from the number of calls: %s" % rep["metric_failures"][0],
                 dict(replay_base, **{"class": "metric-increment-lost"}, detail=rep["metric_failures"], metrics=rep.get("metrics")))
